@@ -387,6 +387,11 @@ pub fn judge(c: &FileCase) -> Report {
                     return rep;
                 }
             }
+            if !matches!(&c.forms[*i], Form::Raw(_)) && loc.is_none() {
+                // (every run-time fault of the generated kinds is located on the pinned tree: C15)
+                rep.fail("diagnostic-without-location", format!("diagnostic {:?} for a run-time fault carries no LINE:COL", line));
+                return rep;
+            }
             if matches!(&c.forms[*i], Form::Raw(t) if t.starts_with("(import")) && loc.is_none() {
                 rep.fail("diagnostic-without-location", format!("diagnostic {:?} for an import declaration that comes too late carries no LINE:COL", line));
                 return rep;
